@@ -54,8 +54,8 @@ def units(case):
 
 class C03(core.Check):
     pid = "C03"
-    gen_modules = []
-    model_targets = ["theories/Model/TextLayout.vo"]
+    gen_modules = ["str_util", "wcwidth_table"]   # only for the PROOF cone (C11's Model/Width.v under Proofs/TextLayoutBytes*.v); the extracted models use no generated file
+    model_targets = ["theories/Model/TextLayout.vo", "theories/Model/TextLayoutBytes.vo"]
     prop_file = "theories/Properties/C03.v"
     extract_v = "Extract/C03X.v"
     allowed_axioms = set()
@@ -78,14 +78,16 @@ class C03(core.Check):
         "Coq 8.16.1 kernel (coqc; vm_compute used only for closed examples)",
         "extraction: ExtrOcamlBasic only; Z/positive stay Coq datatypes; OCaml 4.13.1",
         "tools/driver/driver.ml (int <-> Z conversion, line I/O)",
-        "hand-written Model/TextLayout.v (validated by the exact correspondence on every run, not proved against Python)",
+        "hand-written Model/TextLayout.v and Model/TextLayoutBytes.v (validated by the exact correspondence on every run, not proved against Python)",
+        "C11's Model/Width.v, Base/Utf8.v and their proofs (imported read-only by Proofs/TextLayoutBytes*.v); tools/py2v for Gen/str_util_gen.v",
         "the character width function is a parameter of the model (theorems hold for every cw with 0 <= cw c <= 2 and cw ' ' = 1); "
         "the harness passes the widths urwid.str_util.get_char_width reports (C11 checks that function)",
         "Python oracle in harness/props/c03.py (uses the wcwidth package and the Python codecs directly)",
     ]
     assumptions = [
         "width >= 1; wrap in {any, space, clip, ellipsis}; align in {left, center, right}",
-        "theorems are about str text; utf-8 bytes, euc-jp and ascii texts are checked by the oracle only",
+        "theorems are about str text and about valid utf-8 bytes text (scalar values); rendering of bytes text, euc-jp and ascii "
+        "texts are checked by correspondence / oracle only",
         "text without display attributes (attribute/charset run bookkeeping of apply_text_layout is not modelled)",
         "in 'space' mode a double-width character is a break opportunity on both sides (as the code treats it): "
         "'word' in the breaks-at-spaces clause means a maximal run of single-width/zero-width non-space characters",
@@ -190,6 +192,17 @@ class C03(core.Check):
 
     # ---------- model wire format ----------
     def encode(self, case):
+        if case["mode"] == "bytes" and case["enc"] == "utf-8":
+            # bytes text under the utf8 byte encoding: Model/TextLayoutBytes.v (wire mode 1)
+            from urwid import str_util
+            ell = ellipsis_for("utf-8")
+            chars = sorted(set(case["text"]) | set(ell) | {" ", "\n", "?"})
+            tbl = []
+            for ch in chars:
+                tbl += [ord(ch), str_util.get_char_width(ch)]
+            raw = list(case["text"].encode("utf-8"))
+            return ([1, WRAPS.index(case["wrap"]), ALIGNS.index(case["align"]), case["width"], len(chars)] + tbl
+                    + [len(raw)] + raw + [len(ell)] + [ord(c) for c in ell])
         if case["mode"] != "str":
             return None
         if case["enc"] == "utf-8":
@@ -205,7 +218,7 @@ class C03(core.Check):
         for ch in chars:
             tbl += [ord(ch), str_util.get_char_width(ch)]
         text = [ord(c) for c in case["text"]]
-        return ([WRAPS.index(case["wrap"]), ALIGNS.index(case["align"]), case["width"], len(chars)] + tbl
+        return ([0, WRAPS.index(case["wrap"]), ALIGNS.index(case["align"]), case["width"], len(chars)] + tbl
                 + [len(text)] + text + [len(ell)] + [ord(c) for c in ell])
 
     def decode(self, case, ints):
@@ -239,15 +252,22 @@ class C03(core.Check):
                 m = next(it)
                 out.append([seg() for _ in range(m)])
             return out
+        isb = case["mode"] == "bytes"
+
+        def cps(bs):
+            # the bytes model answers in bytes; the canonical result shows rows / inserted text as code points
+            return [ord(c) for c in bytes(bs).decode(case["enc"], "surrogateescape")] if isb else bs
         try:
             res = {}
             res["layout"] = part(lay)
+            if isb and isinstance(res["layout"], list):
+                res["layout"] = [[[sg[0], sg[1], sg[2], cps(sg[3])] if sg[0] == "I" else sg for sg in ln] for ln in res["layout"]]
             res["rows"] = part(lambda: next(it))
             res["pack"] = part(lambda: [next(it), next(it)])
             res["pack0"] = part(lambda: [next(it), next(it)])
-            res["render"] = part(lambda: [lst() for _ in range(next(it))])
+            res["render"] = part(lambda: [cps(lst()) for _ in range(next(it))])
             res["rows0"] = part(lambda: next(it))
-            res["render0"] = part(lambda: [lst() for _ in range(next(it))])
+            res["render0"] = part(lambda: [cps(lst()) for _ in range(next(it))])
             return res
         except StopIteration:
             return {"malformed": ints[:60]}
@@ -773,7 +793,7 @@ class C03(core.Check):
 
 
 C03.level_text = (
-    "Proved in Coq (Properties/C03.v, 18 theorems, closed under the global context) about the executable model of "
+    "Proved in Coq (Properties/C03.v, 23 theorems, closed under the global context) about the executable model of "
     "StandardTextLayout / trim_line / apply_text_layout, for EVERY str text, every width >= 1, every wrap mode, alignment and "
     "ellipsis string, and every character-width function with widths in 0..2 and a 1-column space, with no size bound: "
     "layout never raises and the loops terminate within the model's fuel (layout_total; the 'space' mode 'unwrap previous "
@@ -786,12 +806,16 @@ C03.level_text = (
     "word fits (space_breaks_at_spaces); alignment shift = 0 / (spare+1)//2 / spare (align_pad); rows() = number of rendered "
     "rows = pack rows (rows_eq_len, pack_rows_eq_rows), and at the natural width reported by pack(()) (when >= 1 column) rows() "
     "is the row count pack(()) reports, every mode (natural_size_rows); a double-width character at width 1 gives [[]] and [[]] arises in no "
-    "other case (wide_in_one_column_empty, empty_line_only_if_cannot_display); rendering never raises and every row is exactly "
-    "width columns for any/space (all alignments), ellipsis (all alignments, width >= 2) and left-aligned clip/ellipsis "
-    "(render_total_partial_wrap/_trim), and a left-aligned clipped row is the longest fitting prefix "
-    "(clip_left_row_is_longest_prefix).  PARTIAL: render_total_full (rendering of over-long clip lines with center/right "
-    "alignment - trim_line cutting on both sides) is stated but not proved; it is decided by the exact model correspondence "
-    "and the oracle only.  The model is hand-written and tied to the code by an exact extracted-model comparison of layout(), "
+    "other case (wide_in_one_column_empty, empty_line_only_if_cannot_display); rendering (trim_line, subseg, calc_trim_text, "
+    "apply_text_layout, TextCanvas width check) never raises, yields as many rows as rows() reports and every row is exactly "
+    "width columns, for ALL four wrap modes and all three alignments incl. over-long clip lines cut on both sides by a negative "
+    "center/right shift (render_total); a left-aligned clipped row is the longest fitting prefix "
+    "(clip_left_row_is_longest_prefix).  Nothing is left _partial.  BYTES text under the utf8 byte encoding has "
+    "its own executable model (Model/TextLayoutBytes.v: decode_one walk, move_prev/next_char, byte offsets) and the theorem "
+    "bytes_layout_is_image: for every str of scalar values the layout of its utf-8 encoding is the image of the str layout under "
+    "the boundary map boff; from it bytes_layout_order / _fits / _omits_only_wrap / _omits_only_trim / bytes_rows_eq.  The byte "
+    "primitives are proved equal to C11's model of str_util (decode_one arithmetic re-translated every run).  Not in the "
+    "theorems: rendering of bytes text (correspondence + oracle), invalid UTF-8, euc-jp/ascii (oracle only).  The model is hand-written and tied to the code by an exact extracted-model comparison of layout(), "
     "rows(), pack((w,)), pack(()), the rendered rows and rows/render at the natural width (about 45k cases per quick run: all strings up to length 3 over "
     "{a, b, space, newline, U+4E16, U+0301} x widths 1..7 x 4 wraps x 3 alignments, a third of length 4, random longer "
     "texts); utf-8 bytes, euc-jp and ascii texts are judged by the independent oracle only.")
